@@ -34,6 +34,7 @@ def run(shard, ctx):
         decimal.setcontext(decimal.Context(prec=4, rounding=decimal.ROUND_DOWN))
         ctx.seen("environment", "ambient decimal context prec=4")
     if shard.get("kind") == "threads":
+        dlms_common.digest_twins(ID, "kaifa", ctx)
         for _ in range(shard["rounds"]):
             dlms_common.run_threads(ID, dlms_gen.kaifa_case, ctx)
         return
